@@ -6,6 +6,17 @@ pub(crate) struct Server {
 }
 
 impl Server {
+  // simulaterawtransaction compares against wallet addresses of the node's own network
+  #[cfg(feature = "verif")]
+  fn simulate_network(&self) -> Network {
+    self.network
+  }
+
+  #[cfg(not(feature = "verif"))]
+  fn simulate_network(&self) -> Network {
+    Network::Bitcoin
+  }
+
   pub(crate) fn new(state: Arc<Mutex<State>>) -> Self {
     let network = state.lock().unwrap().network;
     Self { network, state }
@@ -1088,7 +1099,7 @@ impl Api for Server {
 
         let txout = &tx.output[usize::try_from(input.previous_output.vout).unwrap()];
 
-        let address = Address::from_script(&txout.script_pubkey, Network::Bitcoin).unwrap();
+        let address = Address::from_script(&txout.script_pubkey, self.simulate_network()).unwrap();
 
         if self.state().is_wallet_address(&address) {
           balance_change -= i64::try_from(txout.value.to_sat()).unwrap();
@@ -1096,7 +1107,7 @@ impl Api for Server {
       }
 
       for output in tx.output {
-        let address = Address::from_script(&output.script_pubkey, Network::Bitcoin).unwrap();
+        let address = Address::from_script(&output.script_pubkey, self.simulate_network()).unwrap();
         if self.state().is_wallet_address(&address) {
           balance_change += i64::try_from(output.value.to_sat()).unwrap();
         }
